@@ -18,6 +18,9 @@ def _t(name):
 
 
 _INIT = Term("init", ())
+from .world import Item as _Item  # noqa: E402
+
+_OTHER = [_Item(0, "other0"), _Item(1, "other1")]
 
 APPS = {
     "islice2": (lambda it: A.islice(it, 2), lambda it: itertools.islice(it, 2)),
@@ -39,6 +42,7 @@ APPS = {
     "accumulate": (lambda it: A.accumulate(it, _t("a"), initial=_INIT), lambda it: itertools.accumulate(it, _t("a"), initial=_INIT)),
     "zip_longest": (lambda it: A.zip_longest(it, [1]), lambda it: itertools.zip_longest(it, [1])),
     "merge1": (lambda it: A.merge(it), lambda it: heapq.merge(it)),
+    "merge2": (lambda it: A.merge(it, _OTHER), lambda it: heapq.merge(it, _OTHER)),
     "cycle": (lambda it: A.cycle(it), lambda it: itertools.cycle(it)),
     "starmap": (lambda it: A.starmap(_t("s"), A.zip(it)), lambda it: itertools.starmap(_t("s"), zip(it))),
     "iter": (lambda it: A.iter(it), lambda it: iter(it)),
